@@ -34,6 +34,7 @@ struct Problem
   bool reconfigure = false; // before this problem the caller calls setEstimateSize(p) again with the size the solver already has and
                         // then states the preconditioner it wants (the statement does not say what setEstimateSize does to an
                         // earlier preconditioner, so the check does not rely on either behaviour)
+  bool noResize = false; // the caller does not call setDataSize() again when the problem has the size of the previous one
   bool resolve = false; // after the solve, solve the same data again with the other un-weighted path (paths 0/1 only)
 };
 
@@ -145,7 +146,9 @@ Outcome runHistory(const Plan & pl, Ctx & c)
       if (no & 1) {ls->setPreconditionner(curA, curB);} else {curA = Mat::Identity(p, p); curB = Vec::Zero(p); ls->setPreconditionner(curA);}
       SIM_PROBE("setEstimateSize_again_with_the_same_size");
     }
-    bool grew = ls->setDataSize((size_t)m);
+    const bool skipResize = pb.noResize && prevM == m && !pb.reconfigure && !pb.copy;
+    if (skipResize) {SIM_PROBE("same_size_problem_without_a_new_setDataSize");}
+    bool grew = skipResize ? false : ls->setDataSize((size_t)m);
     if (grew != (m > rows)) {
       return Outcome::fail("setDataSize-result", fmt("problem #%zu: setDataSize(%d) returned %d with buffers of %d rows", no, m, grew, rows));
     }
@@ -390,6 +393,8 @@ struct PropC07
       pb.poison = true;
       pb.fill = fillStyle == 0 ? 0 : (int)r.below(5);
       pb.resolve = r.chance(0.2);
+      pb.noResize = r.chance(0.3);
+      if (k > 0 && r.chance(0.15)) {pb.m = p.problems.back().m; pb.noResize = true;}   // bias: same size as the previous problem, no new setDataSize
       pb.reconfigure = k > 0 && r.chance(0.08);
       pb.copy = k > 0 && r.chance(0.08);
       p.problems.push_back(pb);
@@ -419,7 +424,7 @@ struct PropC07
       Json o = Json::object();
       o.set("data_size", pb.m).set("cond", pb.cond).set("scale", pb.scale).set("noise", pb.noise).set("solve", pathName[pb.path]).set("path", pb.path)
       .set("set_preconditioner", pb.precond == 0 ? "no" : (pb.precond == 1 ? "A" : "A,b")).set("precond", pb.precond).set("covariance", pb.covariance)
-      .set("poison_stale_rows", pb.poison).set("fill", pb.fill == 0 ? "fresh getJ()/getY()/getW()" : (pb.fill == 1 ? "none: prefix of what the buffers hold" : (pb.fill == 2 ? "references kept from construction" : (pb.fill == 3 ? "only Y rewritten" : "only J rewritten")))).set("fill_mode", pb.fill).set("solve_again_other_path", pb.resolve).set("setEstimateSize_again", pb.reconfigure).set("continue_on_copy", pb.copy).set("data_seed_hi", (long long)(pb.seed >> 32)).set("data_seed_lo", (long long)(pb.seed & 0xffffffffULL));
+      .set("poison_stale_rows", pb.poison).set("fill", pb.fill == 0 ? "fresh getJ()/getY()/getW()" : (pb.fill == 1 ? "none: prefix of what the buffers hold" : (pb.fill == 2 ? "references kept from construction" : (pb.fill == 3 ? "only Y rewritten" : "only J rewritten")))).set("fill_mode", pb.fill).set("solve_again_other_path", pb.resolve).set("setEstimateSize_again", pb.reconfigure).set("no_setDataSize_if_same_size", pb.noResize).set("continue_on_copy", pb.copy).set("data_seed_hi", (long long)(pb.seed >> 32)).set("data_seed_lo", (long long)(pb.seed & 0xffffffffULL));
       a.push(o);
     }
     j.set("problems", a);
@@ -431,7 +436,7 @@ struct PropC07
     Plan p; p.isFloat = j["is_float"].b(); p.p = (int)j["estimate_size"].i(); p.ctorRows = (int)j["constructed_with_rows"].i();
     for (auto & o : j["problems"].a()) {
       Problem pb; pb.m = (int)o["data_size"].i(); pb.cond = o["cond"].d(); pb.scale = o["scale"].d(); pb.noise = o["noise"].d(); pb.path = (int)o["path"].i();
-      pb.precond = (int)o["precond"].i(); pb.covariance = o["covariance"].b(); pb.poison = o["poison_stale_rows"].b(); pb.fill = o.has("fill_mode") ? (int)o["fill_mode"].i() : 0; pb.resolve = o["solve_again_other_path"].b(); pb.reconfigure = o.has("setEstimateSize_again") && o["setEstimateSize_again"].b(); pb.copy = o["continue_on_copy"].b();
+      pb.precond = (int)o["precond"].i(); pb.covariance = o["covariance"].b(); pb.poison = o["poison_stale_rows"].b(); pb.fill = o.has("fill_mode") ? (int)o["fill_mode"].i() : 0; pb.resolve = o["solve_again_other_path"].b(); pb.reconfigure = o.has("setEstimateSize_again") && o["setEstimateSize_again"].b(); pb.noResize = o.has("no_setDataSize_if_same_size") && o["no_setDataSize_if_same_size"].b(); pb.copy = o["continue_on_copy"].b();
       pb.seed = ((uint64_t)o["data_seed_hi"].i() << 32) | (uint64_t)o["data_seed_lo"].i();
       p.problems.push_back(pb);
     }
@@ -456,6 +461,7 @@ struct PropC07
       if (pb.fill != 0) {Plan q = p; q.problems[k].fill = 0; out.push_back(q);}
       if (pb.resolve) {Plan q = p; q.problems[k].resolve = false; out.push_back(q);}
       if (pb.reconfigure) {Plan q = p; q.problems[k].reconfigure = false; out.push_back(q);}
+      if (pb.noResize) {Plan q = p; q.problems[k].noResize = false; out.push_back(q);}
       if (pb.copy) {Plan q = p; q.problems[k].copy = false; out.push_back(q);}
     }
     return out;
